@@ -23,4 +23,6 @@ def run(ctx):
     D.seed_bind(ctx)
     ctx.rule("R-SETTLE-FIRST", "the seed a key is checked against, and the transaction state, are stored before the frame that is answered goes out", floor=4)
     D.settle_first(ctx)
+    ctx.rule("R-DM14-STEPS", "refusals are answered through the server's busy path and everything is reset; respond() stores what it is given; reset_query returns to IDLE", floor=12)
+    D.dm14_steps(ctx)
     return "key-check dominance, error translation, bounded wait and restore-on-all-exits of the DM14 facade, client and server"
